@@ -111,6 +111,10 @@ class RecDisc:
     def clone_silent(self):
         d = RecDisc(self.nelem, self.profile, self.dtfun, rec=False, dtlocal_spread=self.spread,
                     rhs_mode=self.rhs_mode)
+        d.tscale, d.z = getattr(self, "tscale", 1.0), self.z.copy()
+        for k_ in ("model", "mesh"):
+            if hasattr(self, k_):
+                setattr(d, k_, getattr(self, k_))
         return d
 
     def rhs(self, f):
@@ -123,8 +127,9 @@ class RecDisc:
     def _dt(self, f):
         if self.dtfun is not None:
             return float(self.dtfun(f))
-        t16 = f.time * UNIT
-        return dt_profile(self.profile, int(round(t16))) / UNIT
+        ts = getattr(self, "tscale", 1.0)          # the unit of time (a power of two): the same scenario in seconds or picoseconds
+        t16 = f.time / ts * UNIT
+        return dt_profile(self.profile, int(round(t16))) / UNIT * ts
 
     def calc_timestep(self, f, condition):
         d = self._dt(f) * condition
@@ -194,13 +199,16 @@ class Session:
     """one solver object on which a script of solve/restart calls is made; builds one observation per call"""
 
     def __init__(self, clsname, ncell=3, profile="c4", islinear=0, dtfun=None, ctor_monitors=None,
-                 dtlocal_spread=False, rhs_mode="lin", q0=None, t0=0.0):
+                 dtlocal_spread=False, rhs_mode="lin", q0=None, t0=0.0, tscale=1.0):
         self.clsname = clsname
         self.cls = getattr(tnum, clsname)
         self.model = FakeModel(islinear)
         self.mesh = FakeMesh(ncell)
         self.disc = RecDisc(ncell, profile, dtfun, dtlocal_spread=dtlocal_spread, rhs_mode=rhs_mode)
         self.disc.model, self.disc.mesh = self.model, self.mesh     # as flowdyn.modeldisc.base exposes them
+        self.disc.tscale = self.tscale = tscale
+        if tscale != 1.0:
+            self.disc.z = self.disc.z / tscale       # dQ/dt = z Q keeps z dt (and so the data) the same in every unit of time
         self.log = self.disc.log
         self.Rec = recording_class(self.cls, self.log)
         kw = {}
@@ -440,6 +448,15 @@ def changing_cfl_calls():
                     prev = res
                     if not res:
                         break
+                else:
+                    # ... and the older entry point on the same object: one global step for every cell there too
+                    t_here = float(prev[-1].time)
+                    raw, res = S.call("solve_legacy", prev[-1], 0.5, [t_here + 0.5, t_here + 1.0625], None)
+                    raw["rhs_mode"] = "one"
+                    inc = np.frombuffer(raw["bfin"], dtype=float) - np.frombuffer(raw["b0"], dtype=float)
+                    # (the generic per-iteration comparison above assumes solve(): here the steps are clipped onto the save times)
+                    raw["cellsok"] = bool(np.array_equal(inc, np.full(4, raw["tfin"] - raw["t0"])))
+                    yield (cn, False, islin, "solve_legacy", 0.5, -1, raw)
 
 
 def project(raws, rid):
@@ -523,7 +540,7 @@ def lattice(t):
     return int(x) if (math.isfinite(x) and x == int(x)) else None
 
 
-def trace_of(raws, froms, kind, prof, t0, tid):
+def trace_of(raws, froms, kind, prof, t0, tid, tscale=1.0):
     """event trace of a script (list of raw calls made on one Session) in lattice units, or None when some time
     is off the lattice (integrators whose time increments are not exact in floating point)"""
     ids = IdSpace()
@@ -532,7 +549,7 @@ def trace_of(raws, froms, kind, prof, t0, tid):
 
     def L(t):
         nonlocal ok
-        v = lattice(t)
+        v = lattice(t / tscale)
         if v is None:
             ok = False
             return 0
